@@ -71,7 +71,7 @@ claim("C14", "exploration",
       "the 256 sets of attribute keys (one run with exactly those attributes; ValueError iff fg / bg is not a colour code); the name / "
       "positional / style= spellings of parse_args and the fmtfuncs helpers are decided by exhaustive-finite / bounded evaluation.",
       "Attribute keys within the 8 names; the string-name spellings of parse_args are not under deductive contract (table lookups on "
-      "symbolic strings); known finding: style values not type-checked.",
+      "symbolic strings); known findings: style values not type-checked; a caller's style= replaces a fmtfuncs helper's own name.",
       "finite split + contract-based deductive verification (pointwise map contracts) + exhaustive-finite evaluation of parse_args", "DESIGN 9/C14")
 claim("C19", "exploration",
       "FmtStr.__eq__/__hash__ and Chunk.__eq__/__hash__ proved against 'equal iff same terminal string' / 'hash is a function of it'; "
@@ -105,7 +105,7 @@ claim("C15", "exploration",
       "against str on the text, per-character formatting of pieces, shared/invented formatting.",
       "__getattr__ delegation and regex splitting are outside the deductive subset (stated in DESIGN 10); the callee contract of "
       "fmtstr(blanks, **attributes) used by the proof is verified under C14 (complete split over the 256 key sets); known finding: "
-      "other line boundaries.",
+      "other line boundaries (only while splitlines gives exactly the newline-only answer).",
       "contract-based deductive verification of ljust/rjust (AST->VC, cvc5/z3) + bounded run-time checking against str for the reflection/regex driven methods", "DESIGN 9/C15")
 claim("C16", "exploration",
       "Bounded only: every string <=6 over {a,b,space,tab,newline} x columns 1..4 plus random multi-format values against an independent "
